@@ -22,10 +22,10 @@ ASSUMPTIONS = ["Rust's `{:e}` float formatting is a parameter of the model (re-i
 def prepare(seed, tier):
     """builds the repository's own `cbor-display` bin target (into a target dir of ours) and tells the harness where it is."""
     import os, subprocess
-    from verifkit.runner import HARNESS, ENV, REPO_OVERRIDE, target_dir, Lock, log
+    from verifkit.runner import HARNESS, ENV, REPO_OVERRIDE, target_dir, Lock, log, cargo_lock
     repo = REPO_OVERRIDE or "/repo"
     tdir = target_dir(os.path.join(HARNESS, "target-cli"))
-    with Lock("cargo-cli.lock"):
+    with cargo_lock("cargo-cli.lock"):
         p = subprocess.run(["cargo", "build", "--release", "--offline", "--manifest-path", os.path.join(repo, "minicbor", "Cargo.toml"), "--bin", "cbor-display",
                             "--features", "std,half", "--target-dir", tdir], env=ENV, stdout=subprocess.PIPE, stderr=subprocess.STDOUT, text=True)
     if p.returncode != 0:
